@@ -171,6 +171,7 @@ type runner struct {
 // run executes the job; the returned sink is never nil. A crash or a missing answer becomes a
 // violation of kind crash / hang attributed to the job's case.
 func (r *runner) run(j job) *sink {
+	firstMsg := ""
 	for attempt := 0; ; attempt++ {
 		if r.c == nil {
 			c, err := startChild()
@@ -211,8 +212,12 @@ func (r *runner) run(j job) *sink {
 		werr2 := r.c.cmd.Wait()
 		msg := r.c.stderr.String()
 		r.c = nil
-		if werr != nil && attempt == 0 && !strings.Contains(msg, "fatal error") {
-			continue // the child had died before this job was written: retry once on a fresh one
+		if attempt == 0 {
+			// whatever happened (the child had died before the job was written, was killed by the
+			// kernel, starved past the backstop, or really crashed on this job): only a failure that
+			// repeats on a fresh child is attributed to the job
+			firstMsg = msg
+			continue
 		}
 		s := newSink()
 		kind, sub := "crash", "fatal"
@@ -226,6 +231,9 @@ func (r *runner) run(j job) *sink {
 		}
 		if len(msg) > 500 {
 			msg = msg[:500]
+		}
+		if msg == "" {
+			msg = firstMsg
 		}
 		s.count("child-crash:" + sub)
 		s.add(violation{Prop: "C05", Kind: kind, Format: j.C.Format, Sub: sub, Detail: fmt.Sprintf("child process died (%v): %s", werr2, msg), Case: j.C})
